@@ -75,10 +75,22 @@ theorem optmatch_mono {k1 k2 : Nat → V Unit} (hk : ∀ b, k1 b = .ok () → k2
   | none => exact h
   | some b => exact hk b h
 
-theorem kind_mono {A B : Schema} (E : Extends A B) (c : Ctx) (fuel : Nat) (IH : TableMono A B c fuel) (td : TD) (f : Field)
+theorem kind_mono {A B : Schema} (E : Extends A B) (c : Ctx) (fuel : Nat) (IHall : ∀ c, TableMono A B c fuel) (td : TD) (f : Field)
     (h : verifyKind B c fuel td f = .ok ()) : verifyKind A c fuel td f = .ok () := by
+  have IH : TableMono A B c fuel := IHall c
   unfold verifyKind at h ⊢
   cases hk : f.kind with
+  | nestedTable t a =>
+    -- the nested bytes are verified as a buffer of their own, at their own address: the hypothesis for every buffer applies
+    simp only [hk] at h ⊢
+    refine bind_mono (fun r h => ?_) h
+    refine optmatch_mono (fun b h => ?_) r h
+    refine bind_mono (fun o h => ?_) h
+    refine bind_mono (fun len h => ?_) h
+    unfold verifyNestedTable at h ⊢
+    refine bind_mono (fun _ h => ?_) h
+    exact bind_mono (fun ro h => IHall _ _ _ _ _ h) h
+  | nestedStruct s a => simp only [hk] at h ⊢; exact h
   | scalar s a => simp only [hk] at h ⊢; exact h
   | string => simp only [hk] at h ⊢; exact h
   | vector e a m => simp only [hk] at h ⊢; exact h
@@ -147,12 +159,12 @@ theorem fields_all {S : Schema} (c : Ctx) (fuel : Nat) (td : TD) :
       rw [h f List.mem_cons_self]
       exact ih.mpr (fun g hg => h g (List.mem_cons_of_mem _ hg))
 
-theorem table_mono {A B : Schema} (E : Extends A B) (c : Ctx) : ∀ fuel, TableMono A B c fuel := by
+theorem table_mono {A B : Schema} (E : Extends A B) : ∀ fuel c, TableMono A B c fuel := by
   intro fuel
   induction fuel with
-  | zero => intro base offset ttl t h; unfold verifyTable at h; contradiction
+  | zero => intro c base offset ttl t h; unfold verifyTable at h; contradiction
   | succ fuel ih =>
-    intro base offset ttl t h
+    intro c base offset ttl t h
     unfold verifyTable at h ⊢
     refine bind_mono (fun _ h => ?_) h
     refine bind_mono (fun _ h => ?_) h
